@@ -5,8 +5,8 @@ import UmProofs.BrokerScaleQuota
 Generic lifting lemma for `iterate`, the cut from the *front* of a source range list, and the
 bookkeeping invariants of the scale-down loops.
 -/
-namespace Um.Broker
-open Um Um.Slots
+namespace Um.Broker.Scale
+open Um Um.Slots Um.Broker
 
 /-- lift a one-iteration specification through `iterate`: an invariant `I`, a measure `μ` that
 every `cont` step decreases, a postcondition `Q` every `done` step establishes -/
@@ -123,16 +123,16 @@ theorem cutFirst_spec {first : Range} {rest : RangeList} (cur : RangeList) (curN
 def DownParams.ex (P : DownParams) (j : Nat) : Nat := (P.existing[j]?).getD 0
 
 /-- slots destination `j` still needs -/
-def DownParams.dneed (P : DownParams) (j : Nat) : Nat := downFinalOf P j - P.ex j
+def DownParams.dneed (P : DownParams) (j : Nat) : Nat := downFinalOf P j - (DownParams.ex P) j
 
-def DownParams.given (P : DownParams) (st : LoopSt) : Nat := sumTo P.dneed st.dstIdx + st.curNum
+def DownParams.given (P : DownParams) (st : LoopSt) : Nat := sumTo (DownParams.dneed P) st.dstIdx + st.curNum
 
-def DownParams.total (P : DownParams) : Nat := sumTo P.dneed P.dstMasterNum
+def DownParams.total (P : DownParams) : Nat := sumTo (DownParams.dneed P) P.dstMasterNum
 
 /-- well-formed parameters: one `existing` entry per destination, none above its final count -/
 structure DownParams.Ok (P : DownParams) : Prop where
   len : P.existing.length = P.dstMasterNum
-  le : ∀ j, j < P.dstMasterNum → P.ex j ≤ downFinalOf P j
+  le : ∀ j, j < P.dstMasterNum → (DownParams.ex P) j ≤ downFinalOf P j
 
 def downIndex (mm : MigMeta) : Nat := mm.dstChunk * 2 + mm.dstPart
 
@@ -141,11 +141,11 @@ def DownParams.task (P : DownParams) (sc sp j : Nat) (ranges : RangeList) : MigS
     mm := { epoch := P.epoch, srcChunk := sc, srcPart := sp, dstChunk := j / 2, dstPart := j % 2 } }
 
 theorem downIndex_task (P : DownParams) (sc sp j : Nat) (ranges : RangeList) :
-    downIndex (P.task sc sp j ranges).mm = j := by
+    downIndex ((DownParams.task P) sc sp j ranges).mm = j := by
   simp only [downIndex, DownParams.task]; omega
 
 structure DOutInv (P : DownParams) (st : LoopSt) : Prop where
-  done : ∀ j, j < st.dstIdx → recvBy downIndex st.out j = P.dneed j
+  done : ∀ j, j < st.dstIdx → recvBy downIndex st.out j = (DownParams.dneed P) j
   curr : recvBy downIndex st.out st.dstIdx + slotsNum st.curSlots = st.curNum
   later : ∀ j, st.dstIdx < j → recvBy downIndex st.out j = 0
   shape : ∀ ms ∈ st.out, ∃ j, j < P.dstMasterNum ∧ ms.mm.dstChunk = j / 2 ∧
@@ -153,15 +153,15 @@ structure DOutInv (P : DownParams) (st : LoopSt) : Prop where
 
 structure DStInv (P : DownParams) (st : LoopSt) : Prop where
   le : st.dstIdx ≤ P.dstMasterNum
-  lt : st.dstIdx < P.dstMasterNum → st.curNum < P.dneed st.dstIdx ∨ st.curNum = 0
+  lt : st.dstIdx < P.dstMasterNum → st.curNum < (DownParams.dneed P) st.dstIdx ∨ st.curNum = 0
   fin : st.dstIdx = P.dstMasterNum → st.curNum = 0 ∧ st.curSlots = []
-  cs : st.curSlots ≠ [] → 0 < st.curNum ∧ st.curNum < P.dneed st.dstIdx
+  cs : st.curSlots ≠ [] → 0 < st.curNum ∧ st.curNum < (DownParams.dneed P) st.dstIdx
   out : DOutInv P st
 
 theorem dOutInv_emit_done {P : DownParams} {st : LoopSt} (h : DOutInv P st) (hlt : st.dstIdx < P.dstMasterNum)
     (sc sp : Nat) (hsp : sp < 2) (ranges : RangeList) (hfx : compact ranges = ranges)
-    (hcount : recvBy downIndex st.out st.dstIdx + slotsNum ranges = P.dneed st.dstIdx) :
-    DOutInv P ⟨st.dstIdx + 1, [], 0, st.out ++ [P.task sc sp st.dstIdx ranges]⟩ := by
+    (hcount : recvBy downIndex st.out st.dstIdx + slotsNum ranges = (DownParams.dneed P) st.dstIdx) :
+    DOutInv P ⟨st.dstIdx + 1, [], 0, st.out ++ [(DownParams.task P) sc sp st.dstIdx ranges]⟩ := by
   refine ⟨?_, ?_, ?_, ?_⟩
   · intro j hj
     simp only [recvBy_snoc, downIndex_task]
@@ -188,7 +188,7 @@ theorem dOutInv_emit_done {P : DownParams} {st : LoopSt} (h : DOutInv P st) (hlt
 theorem dOutInv_emit_open {P : DownParams} {st : LoopSt} (h : DOutInv P st) (hlt : st.dstIdx < P.dstMasterNum)
     (sc sp : Nat) (hsp : sp < 2) (ranges : RangeList) (hfx : compact ranges = ranges) (curNum' : Nat)
     (hcount : recvBy downIndex st.out st.dstIdx + slotsNum ranges = curNum') :
-    DOutInv P ⟨st.dstIdx, [], curNum', st.out ++ [P.task sc sp st.dstIdx ranges]⟩ := by
+    DOutInv P ⟨st.dstIdx, [], curNum', st.out ++ [(DownParams.task P) sc sp st.dstIdx ranges]⟩ := by
   refine ⟨?_, ?_, ?_, ?_⟩
   · intro j hj
     simp only at hj
@@ -211,4 +211,4 @@ theorem dOutInv_emit_open {P : DownParams} {st : LoopSt} (h : DOutInv P st) (hlt
     · simp only [List.mem_singleton] at hms; subst hms
       exact ⟨st.dstIdx, hlt, rfl, rfl, hsp, rfl, hfx⟩
 
-end Um.Broker
+end Um.Broker.Scale
